@@ -148,6 +148,14 @@ inline void poison(const mjModel* m, mjData* d, uint64_t seed, bool keep_sleep) 
   // what makes a stale read visible (NaN / index -1) instead of silently plausible
 }
 
+// mju_error is fatal for an instance: the longjmp leaves its stack in use, and the ASan build of the engine
+// (mjUSEASAN) then refuses to free it.  Dropping the dangling frames first is what an application would do.
+inline void dispose(mjData* d) {
+  if (!d) return;
+  d->pstack = 0; d->pbase = 0; d->threadlock = 0;
+  mj_deleteData(d);
+}
+
 inline std::vector<mjtNum> get_state(const mjModel* m, const mjData* d, int sig) {
   std::vector<mjtNum> v(mj_stateSize(m, sig) + 1);
   mj_getState(m, d, v.data(), sig);
